@@ -40,6 +40,7 @@ def tryRun : List TStep → Sess → Except Sess Sess
     | .error _ => .error s
     | .ok (g, _) => tryRun r { s with g := g }
   | .renewSkipMarks :: r, s => tryRun r s     -- `skip` marks below tasks with outcome SKIP: none in M7
+  | .renewFailMarks :: r, s => tryRun r { s with renewed := renewFailMarks s.g s }   -- `skip_ancestor_failed` below FAIL reports (ee6b73e)
   | .setScheduler :: r, s =>
     match Sorter.fromDagAndSorter s.g isTaskV prio0 s.so with
     | .error _ => .error s
